@@ -513,6 +513,10 @@ def concrete_run(iface, method, size, chunk, range_hdr, if_range_kind, ctype, re
             if_range = '"' + R.FileResponseMixin.generate_etag(st) + '"'
         elif if_range_kind == "lastmod":
             if_range = formatdate(st.st_mtime, usegmt=True)
+        elif if_range_kind == "weak":  # the current tag marked weak: If-Range needs a strong validator (RFC 9110 13.1.5), so it does not match
+            if_range = 'W/"' + response_class(iface, subclass).generate_etag(st) + '"'
+        elif if_range_kind == "unquoted":
+            if_range = response_class(iface, subclass).generate_etag(st)
         elif if_range_kind is not None:
             if_range = IF_RANGE_TEXT[if_range_kind]
         if iface == "wsgi":
@@ -562,7 +566,7 @@ def concrete_run(iface, method, size, chunk, range_hdr, if_range_kind, ctype, re
                 return {"type": "http.disconnect"}
             asyncio.run(resp(scope, receive, send))
             status = sent[0]["status"]
-            headers = [(k.decode().lower(), v.decode()) for k, v in sent[0].get("headers", [])]
+            headers = [(k.decode("latin-1").lower(), v.decode("latin-1")) for k, v in sent[0].get("headers", [])]
             # what a server delivers: body events up to and including the first one with more_body false; later events are a protocol error
             body, completed, extra = b"", False, 0
             for m in sent[1:]:
@@ -620,7 +624,7 @@ def concrete_problem(iface, method, size, chunk, range_hdr, if_range_kind, ctype
             if h.get("content-range") != f"bytes {runs[0][0]}-{runs[0][1] - 1}/{size}":
                 return f"content-range {h.get('content-range')!r} for {runs}"
         else:
-            exp_body = b"".join(f"--{b_}\nContent-Type: {ctype}\nContent-Range: bytes {s}-{e - 1}/{size}\n\n".encode() + data[s:e] + b"\n"
+            exp_body = b"".join(f"--{b_}\nContent-Type: {ctype}\nContent-Range: bytes {s}-{e - 1}/{size}\n\n".encode("latin-1") + data[s:e] + b"\n"
                                 for s, e in runs for b_ in [h.get("content-type", "").split("boundary=")[-1]])
             exp_body += f"--{h.get('content-type', '').split('boundary=')[-1]}--\n".encode()
     if status != exp_status:
@@ -776,8 +780,7 @@ def run_job(job) -> report.JobResult:
 
 
 def ifk_concrete(ifk):
-    # weak / unquoted validators never match: any non-matching text is equivalent for the concrete oracle
-    return "other" if ifk in ("weak", "unquoted") else ifk
+    return ifk
 
 
 def jobs(tier: str):
@@ -835,6 +838,11 @@ def jobs(tier: str):
                 for forms in itertools.product(C3.FORMS, repeat=3):
                     out.append(dict(name=f"framing/{iface}/{method}/{','.join(forms)}/D3", family="framing", iface=iface, method=method,
                                     forms=list(forms), if_range=None, ctype="text/plain", K=1, D=3, weight=400, budget=3600))
+    # content_type is a constructor argument: a Latin-1 (non-ASCII) parameter in it is part of every multipart part header
+    for iface in ifaces:
+        for method in ("GET", "HEAD"):
+            out.append(dict(name=f"framing/{iface}/{method}/ab,ab/D3/content-type-latin1", family="framing", iface=iface, method=method,
+                            forms=["ab", "ab"], if_range=None, ctype='text/plain; title="r\xe9sum\xe9 \xa7"', K=1, D=3, weight=200))
     out.append(dict(name="twin/data/wsgi", family="data", iface="wsgi", method="GET", forms=["ab"], if_range=None, ctype="text/plain", K=2, twin=True))
     out.append(dict(name="twin/framing/asgi", family="framing", iface="asgi", method="GET", forms=["ab", "ab"], if_range=None, ctype="text/plain", K=1, D=2, twin=True))
     return out
